@@ -50,12 +50,12 @@ func (o Ord) Flip() Ord {
 type FactKind int
 
 const (
-	FCmp   FactKind = iota // big.Int X.Cmp(Y) ∈ Ord
-	FSign                  // big.Int X.Sign() ∈ Ord (relative to 0)
-	FInt                   // machine integers: X rel Y ∈ Ord (Y may be const)
-	FNil                   // X is nil (Bool=true) / non-nil (Bool=false)
-	FCall                  // call X returned Bool
-	FBool                  // boolean value X is Bool
+	FCmp  FactKind = iota // big.Int X.Cmp(Y) ∈ Ord
+	FSign                 // big.Int X.Sign() ∈ Ord (relative to 0)
+	FInt                  // machine integers: X rel Y ∈ Ord (Y may be const)
+	FNil                  // X is nil (Bool=true) / non-nil (Bool=false)
+	FCall                 // call X returned Bool
+	FBool                 // boolean value X is Bool
 )
 
 // Fact is an atomic fact known to hold on a CFG edge.
@@ -64,7 +64,7 @@ type Fact struct {
 	X, Y ssa.Value
 	Ord  Ord
 	Bool bool
-	If   *ssa.If // the branch that established it
+	If   *ssa.If         // the branch that established it
 	At   ssa.Instruction // the instruction that reads X and Y (Cmp/Sign call), for big.Int object state
 }
 
